@@ -90,7 +90,9 @@ impl Token for SnapTokenClaims {
         self.pssid.to_string()
     }
     fn exp_time(&self) -> SystemTime {
-        UNIX_EPOCH + Duration::from_secs(self.exp)
+        // Saturate at the year 9999 so that an absurdly large `exp` does not overflow (and panic in)
+        // the time arithmetic.
+        UNIX_EPOCH + Duration::from_secs(self.exp.min(crate::MAX_EXP_SECS))
     }
     fn required_claims() -> Vec<&'static str> {
         vec!["exp", "pssid"]
